@@ -18,6 +18,9 @@ WITNESS_STRINGS = [
     "{{", "}}", "{{}}", "<>", "</>", "<a></a", "<a><a></a>", "$t()", "$t(,)", "$t(a:b:c)", "$t(a..b)", "{{ x, }}", "{{ x, number( }}",
     "{{ x, number) }}", "é<é>é</é>é", "\u2003{{\u2003x\u2003}}\u2003", "<b\u00a0>x</b\u00a0>", "{{ a }}" * 40, "<i>" * 30 + "</i>" * 30,
     "$t(a, {\"count\": 1e400})", "$t(a, {\"x\": \"\\ud83d\"})", "$t(a, {\"x\": \"\\ud83d\\ude00\"})",
+    # multibyte text inside the argument object (byte offsets of the closing brace)
+    "$t(hello, {\"name\": \"ééé\"})", "$t(a, {\"x\": \"€€\"}) tail", "$t(a, {\"x\": \"日本語のテキスト\"})", "x $t(a, {\"x\": \"naïve café\", \"y\": \"😀😀\"}) é",
+    "$t(a, {\"é\": \"é\"})}", "$t(a, {\"x\": \"ééééé\"}", "$t(a, {\"x\": \"}é}é}\"})",
 ]
 
 WITNESS_PROJECTS = [
@@ -208,6 +211,12 @@ def run(ctx):
     for tree, note in WITNESS_PROJECTS:
         projects.append({"default": "en", "locales": ["en"], "all_locales": ["en"], "namespaces": None, "inherits": {},
                          "files": {(None, "en"): tree}, "extra_cfg": False, "note": note})
+    # many alternatives: the generator nests its `EitherOf` wrappers in groups of 15 (+1): ranges with n branches around every multiple
+    for nb in (15, 16, 17, 18, 30, 31, 32, 33, 46, 47, 48, 61, 62, 63):
+        br = [{"a": [f"b{j} {{{{ count }}}}", {"u": j}]} for j in range(nb - 1)] + [{"a": ["rest {{ count }}"]}]
+        projects.append({"default": "en", "locales": ["en"], "all_locales": ["en"], "namespaces": None, "inherits": {},
+                         "files": {(None, "en"): {"o": [["many", {"a": ["u8"] + br}], ["manyf", {"a": ["f32"] + [{"a": [f"f{j}", {"f": f"{j}.5"}]} for j in range(nb - 1)] + [{"a": ["rest"]}]}]]}},
+                         "extra_cfg": False, "note": f"{nb} branches"})
     for i in range(ctx.budget(1500, 40000)):
         projects.append(proj.gen_project(rng))
     # every shape of `inherits` on 4 locales (chains, forks, cycles, tails leading into a cycle, self-reference) x presence patterns:
@@ -301,6 +310,32 @@ def run(ctx):
         ctx.seen({"deep": name})
         if crash is not None or (r and "panic" in r[0]):
             report_violation(ctx, "deep-input:" + name, {"case": {"op": "parse_new", "s_len": len(s), "shape": name}, "impl": crash or r[0]})
+    # deeply nested subkeys / sequences in the three formats: an error (all three stop at 128 levels: serde_json and serde_yaml on their own,
+    # JSON5 through the limit of the locale seeds, C09-json5-depth) — never a crash
+    for fmt in ("json", "yaml", "json5"):
+        bf = build_parser(ctx, fmt)
+        if bf is None:
+            continue
+        for depth in (127, 129, 3000, 20000):
+            for shape, text in (("objects", '{"k": ' * depth + '"x"' + "}" * depth), ("sequences", '{"k": ' + "[" * depth + "1" + "]" * depth + "}")):
+                q = {"op": "pipeline", "cargo_toml": '[package]\nname = "p"\n[package.metadata.leptos-i18n]\ndefault = "en"\nlocales = ["en"]\n',
+                     "files": [[f"locales/en.{proj.EXT[fmt]}", text]], "operands": []}
+                r, crash = run_lines(bf, [q], timeout=300)
+                ctx.seen({"deep": f"{fmt}:{shape}:{depth}"})
+                ctx.count("deep_nesting:" + fmt)
+                if crash is not None or (r and "panic" in r[0]):
+                    report_violation(ctx, f"deep-input:{fmt}-nested-{shape}-{depth}", {"case": {"op": "pipeline", "format": fmt, "shape": f"{depth} nested {shape}"},
+                                                                                       "impl": crash or r[0], "harness": f"parser_h ({fmt} build) pipeline"})
+    # known finding C09-json5-pest: the third-party JSON5 reader itself (its pest grammar) recurses once per nesting level before any of this
+    # library's code sees the data
+    bf = build_parser(ctx, "json5")
+    if bf is not None:
+        depth = 200000
+        q = {"op": "pipeline", "cargo_toml": '[package]\nname = "p"\n[package.metadata.leptos-i18n]\ndefault = "en"\nlocales = ["en"]\n',
+             "files": [["locales/en.json5", '{"k": ' * depth + '"x"' + "}" * depth]], "operands": []}
+        r, crash = run_lines(bf, [q], timeout=300)
+        if crash is not None:
+            report_violation(ctx, "stack-overflow:json5-reader-nesting-200000", {"case": {"op": "pipeline", "format": "json5", "shape": "200000 nested objects (1.4 MB)"}, "impl": crash})
     # known finding F8: recursion depth linear in the number of interpolations meets a finite stack
     s = "{{a}}" * 40000
     r, crash = run_lines(binp, [{"op": "parse_new", "s": s}], timeout=300)
